@@ -152,6 +152,9 @@ class XmlTableGen:
                 import base64 as _b64
                 payload = rng.choice([b'\r\n', b' ', b'\n', b'hello', b'\x00\x01\xff', bytes(rng.randrange(256) for _ in range(rng.randint(1, 9)))])
                 return out + b'>' + _b64.b64encode(payload) + b'</' + name + b'>'
+            if rng.random() < 0.06:
+                # a CDATA section as the only content, with line breaks (character data like any other)
+                return out + b'>' + rng.choice([b'<![CDATA[line1\nline2]]>', b'<![CDATA[\n]]>', b'<![CDATA[a<b>&c\n\nd]]>']) + b'</' + name + b'>'
             for _ in range(rng.choice([0, 1, 1, 2, 3]) if depth < 3 else 0):
                 if rng.random() < 0.5:
                     kids += elt(depth + 1, t[1])
@@ -230,3 +233,37 @@ def syncml_xml(rng, devinf=None):
     body = f"<{cmd}><CmdID>1</CmdID>{meta if where == 'cmd' else ''}<Item><Source><LocURI>./x</LocURI></Source>{item_meta}<Data>{payload}</Data></Item></{cmd}>"
     head = '<?xml version="1.0"?>' + rng.choice(['', f'<!DOCTYPE SyncML PUBLIC "-//SYNCML//DTD SyncML {ver}//EN" "http://www.openmobilealliance.org/tech/DTD/OMA-TS-SyncML_RepPro_DTD-V1_2.dtd">' if ver == '1.2' else '<!DOCTYPE SyncML PUBLIC "-//SYNCML//DTD SyncML 1.1//EN" "http://www.syncml.org/docs/syncml_represent_v11_20020213.dtd">'])
     return (head + f'<SyncML xmlns="{ns}"><SyncHdr><VerDTD>{ver}</VerDTD><VerProto>SyncML/{ver}</VerProto><SessionID>1</SessionID><MsgID>1</MsgID></SyncHdr><SyncBody>{body}<Final/></SyncBody></SyncML>').encode()
+
+
+def ambiguous_name_docs(dump, rng, limit):
+    """Directed documents for languages with namespaces: a child element whose local name exists both in its own
+    code page and in its parent's - only the namespace declaration tells which row is meant."""
+    out = []
+    T = dump['tables']
+    for lang in dump['langs']:
+        if lang['ns'] is None or lang['tags'] is None:
+            continue
+        tags = T[str(lang['tags'])]['rows']
+        nsmap = {r[1]: bytes.fromhex(r[0]) for r in T[str(lang['ns'])]['rows']}
+        pages = {}
+        for r in tags:
+            pages.setdefault(r[0], set()).add(r[1])
+        by_page = {}
+        for r in tags:
+            by_page.setdefault(r[1], []).append(r)
+        cands = []
+        for r in tags:
+            for P in pages[r[0]]:
+                if P != r[1] and P in nsmap and r[1] in nsmap:
+                    cands.append((P, r))
+        rng.shuffle(cands)
+        pub = lang['pub']
+        root_name = bytes.fromhex(pub['root']) if pub.get('root') else None
+        for P, r in cands[:limit]:
+            parent = rng.choice([x for x in by_page[P] if not (len(x) > 3 and x[3] & 1)] or by_page[P])
+            pn, cn = bytes.fromhex(parent[0]), bytes.fromhex(r[0])
+            head = b'<?xml version="1.0"?>'
+            if pub.get('xml'):
+                head += b'<!DOCTYPE ' + (root_name or pn) + b' PUBLIC "' + bytes.fromhex(pub['xml']) + b'" "' + bytes.fromhex(pub['dtd'] or '') + b'">'
+            out.append(head + b'<' + pn + b' xmlns="' + nsmap[P] + b'"><' + cn + b' xmlns="' + nsmap[r[1]] + b'">x</' + cn + b'></' + pn + b'>')
+    return out
